@@ -215,3 +215,9 @@ REG.contracts.append(_c08.c_add_history.contract)
 # the balance of the NEXT step reads the interfacial-composition tables: they must follow every grid change of every phase (contract shared with C13)
 from . import c13 as _c13
 REG.contracts.append(_c13.c_update_psd.contract)
+
+
+# the mass balance turns R^3 into particle volume with the nucleus geometry factors: they are those of the CURRENT interfacial / grain-boundary energies
+# (cached factors follow every change -- C14 contract on the real parameter class)
+from . import c14 as _c14
+REG.contracts.append(_c14.c_cache.contract)
